@@ -7,6 +7,7 @@
 import AgeModel.Extracted.CallOrder
 import Proofs.GoTieSlicesEq
 import Proofs.GoTieEncrypt
+import Proofs.GoTieWrapLabels
 namespace AgeModel
 namespace Tie.C11
 
@@ -41,6 +42,16 @@ theorem encrypt_tie (P : Prims) {S : AgeModel.Stream.DstSpec} {ρ δ ω : Type} 
           res.1 = E.mkW k res.2.2.1 ∧ res.2.1 = none ∧ E.absD res.2.2.1 = d2 ∧ res.2.2.2 = t' ∧ w = AgeModel.Stream.Writer.new d2
       | (.error e, d2) => GoTie.encErrRel E.eRand e res.2.1 ∧ E.absD res.2.2.1 = d2 :=
   GoTie.encrypt_tie P E d rs tape
+
+/-- `age.wrapWithLabels`, translated: a recipient that does not implement `RecipientWithLabels`
+    counts as having NO labels -/
+theorem wrapWithLabels_tie {ρ : Type} (impl : ρ → Bool)
+    (WL : ρ → Bytes → Go.M (List Extracted.age_Stanza × List Bytes × Option Go.Err))
+    (W : ρ → Bytes → Go.M (List Extracted.age_Stanza × Option Go.Err)) (r : ρ) (fk : Bytes) :
+    Extracted.age_wrapWithLabels impl WL W r fk =
+      if impl r = true then WL r fk
+      else (W r fk).map (fun t => (t.1, [], t.2)) :=
+  GoTie.wrapWithLabels_tie impl WL W r fk
 
 end Tie.C11
 end AgeModel
